@@ -328,7 +328,15 @@ def check_composite_states(spec, res, comp):
     for node in nodes:
         cfg_state = {}
         put(cfg_state, list(node), 424242)
-        comp.initial_state({'initial_state': cfg_state})
+        with_cfg = comp.initial_state({'initial_state': cfg_state})
+        if getp(with_cfg, list(node), KeyError) != 424242:
+            # the state given in the call wins over the composite's own
+            # state, a process's initial_state() and the defaults
+            res.fail('composite.initial_state.explicit', 'initial_state('
+                     '{"initial_state": %r}) holds %r at %r'
+                     % (cfg_state, getp(with_cfg, list(node), 'MISSING'),
+                        node), 'composer.py:initial_state')
+            return
         again = comp.initial_state()
         d = deq(again, init)
         if d:
